@@ -9,7 +9,7 @@ func init() {
 				"19 programs of builtin calls on symbolic leaves (arrays, hashes, numerics, ranges, strings, Object methods, blocks, union receivers, failing calls) each followed by a 92-line probe that calls 44 shipped builtin methods on fresh literals (every special return form); probe alone vs. probe after the program, plus the deep table comparison")
 			wide.Budget = 60000000
 			table := &Job{Name: "table", Pkg: "ti", Entry: "VerifBuiltinTable", N: 0, Budget: 60000000, MaxDepth: 300, Reach: []string{"ran"}, Asserts: []string{"C12-table"}, Replay: "kernel", Config: "core",
-				Bound: "each of the 13 + 21 C12 programs followed by the wide probe, evaluated through the four real rounds (evaluationLoop in load mode); afterwards every Builtin-frame method T of TFrame (arguments, return type, variants, overloads, block parameters, flags incl. IsInclude/IsExtend/IsStatic/Defined*) is compared with a snapshot taken before; leaf kinds solver variables; replayed in a natively compiled test binary"}
+				Bound: "each of the 13 + 21 C12 programs, evaluated through the four real rounds (evaluationLoop in load mode); afterwards every Builtin-frame method T of TFrame (arguments, return type, variants, overloads, block parameters, flags incl. IsInclude/IsExtend/IsStatic/Defined*) is compared with a snapshot taken before; leaf kinds solver variables; replayed in a natively compiled test binary"}
 			return []*Job{wide, table, f4Job("stable", "VerifBuiltinStable", 0, []string{"ran"}, []string{"C12-probe"},
 				"13 (program, probe) pairs: the program calls builtin methods on receivers/arguments of solver-chosen kinds (Sym.a, Sym.b, union Sym.u); the probe uses the same methods on fresh literals; probe alone vs. probe after the program (Snapshot/Restore in one path), plus a deep comparison of every Builtin-frame method T in TFrame before/after")}
 		},
